@@ -145,7 +145,7 @@ def cases(chunk):
                 for style in (0, 1, 2)]
         for i, (n, F, style) in enumerate(grid):
             if i % chunk["of"] == chunk["part"] and n * F <= 300000:
-                yield {"kind": "scale", "size": n, "nfeat": F, "style": style}
+                yield {"kind": "scale", "size": n, "nfeat": F, "style": style, "limit_x": 4}
         return
     if chunk["kind"] == "exh":
         idx = 0
